@@ -218,7 +218,13 @@ def run_shard(ctx):
         def one(case=case, rng=rng):
             d = ctx.fresh("m")
             odb = env.local_odb(d)
-            names = ["a", "b", "d/x", "d/y", "d/e/z", "é/日本", "cafe\u0301.txt", "caf\u00e9.txt", "e\u0301/x", "\u00e9/x"]
+            names = ["a", "b", "d/x", "d/y", "d/e/z", "é/日本", "cafe\u0301.txt", "caf\u00e9.txt", "e\u0301/x", "\u00e9/x", "data", "data/new"]
+
+            def well_formed(s_):
+                # one listing never holds a path both as a file and as a directory (the two sides together may)
+                if "data" in s_ and "data/new" in s_:
+                    del s_[rng.choice(["data", "data/new"])]
+                return s_
 
             def mk(listing):
                 if listing and rng.random() < 0.25:
@@ -245,7 +251,7 @@ def run_shard(ctx):
                 return t.hash_info
 
             def rl():
-                return {n: f"{rng.randrange(1, 4):032x}" for n in names if rng.random() < 0.6}
+                return well_formed({n: f"{rng.randrange(1, 4):032x}" for n in names if rng.random() < 0.6})
 
             anc = rl()
 
@@ -259,7 +265,7 @@ def run_shard(ctx):
                             del s[n]
                         else:
                             s[n] = f"{rng.randrange(4, 7):032x}"
-                return s
+                return well_formed(s)
 
             pol = rng.choice(POLICIES)
             ours, theirs = derive(pol is not None and len(pol) > 1), derive(pol is not None and len(pol) > 1)
